@@ -271,13 +271,13 @@ func ruleMergeDispatch(c *Ctx, r *R) {
 			// guarded by len(in) == n
 			guarded := false
 			for _, g := range guardsOf(b) {
-				if cf, ok := g.asCmp(); ok && cf.op == token.EQL && isConstInt(cf.y, int64(n)) && path(cf.x) == "len("+inP.Name()+")" {
+				if cf, ok := g.asCmp(); ok && cf.op == token.EQL && isConstInt(cf.y, int64(n)) && path(cf.x) == "len("+pname(inP)+")" {
 					guarded = true
 				}
 			}
 			argsOK := len(call.Call.Args) == n+1
 			for k := 1; k < len(call.Call.Args) && argsOK; k++ {
-				if path(call.Call.Args[k]) != inP.Name()+"["+itoa(k-1)+"]" {
+				if path(call.Call.Args[k]) != pname(inP)+"["+itoa(k-1)+"]" {
 					argsOK = false
 				}
 			}
@@ -313,7 +313,7 @@ func ruleMergeDispatch(c *Ctx, r *R) {
 			return
 		}
 		if ex, ok := snd.X.(*ssa.Extract); ok {
-			if rcv, ok := ex.Tuple.(*ssa.UnOp); ok && rcv.Op == token.ARROW && path(rcv.X) == inP.Name()+"[0]" && snd.Chan == ssa.Value(fn.Params[0]) {
+			if rcv, ok := ex.Tuple.(*ssa.UnOp); ok && rcv.Op == token.ARROW && path(rcv.X) == pname(inP)+"[0]" && snd.Chan == ssa.Value(fn.Params[0]) {
 				one = true
 			}
 		}
@@ -328,7 +328,7 @@ func ruleMergeDispatch(c *Ctx, r *R) {
 			if cal := staticCallee(&call.Call); cal == nil || fname(cal) != "Replicate" || len(call.Call.Args) < 2 {
 				return
 			}
-			if path(call.Call.Args[0]) != inP.Name()+"[0]" {
+			if path(call.Call.Args[0]) != pname(inP)+"[0]" {
 				return
 			}
 			for _, lf := range valueLeaves(call.Call.Args[1], nil, 0) {
